@@ -30,8 +30,10 @@ Definition q_of_float_lexeme (s : text) : Q :=
             | [] => 0%Z end in
   let m := (inject_Z ip + inject_Z fp * pow10 (- Z.of_nat fn))%Q in
   let v := (m * pow10 ex)%Q in if neg then (- v)%Q else v.
+(* float(text) is correctly rounded: within half a unit in the last place, which is at most 2^-52 |x| for normal doubles
+   and 2^-1075 in the subnormal range *)
 Definition float_close (model obs : Q) : bool :=
-  Qle_bool (Qabs (obs - model)) ((1 # 4503599627370496) * Qabs model).
+  Qle_bool (Qabs (obs - model)) ((1 # 4503599627370496) * Qabs model) || Qle_bool (Qabs (obs - model)) (1 # Z.to_pos (2 ^ 1075)).
 
 Fixpoint val_ok (m : pval) (o : oval) {struct m} : bool :=
   match m, o with
